@@ -208,3 +208,22 @@ package hybridbuffer
 //@   ensures[every-enqueued-chunk-counted] nsent(buf.inputChannel) - old(nsent(buf.inputChannel)) == minput(&buf.chunkMan) - old(minput(&buf.chunkMan))
 //@   loop 1: invariant validbuf(buf) && bal(&buf.chunkMan) == old(bal(&buf.chunkMan))
 //@        && nsent(buf.inputChannel) - old(nsent(buf.inputChannel)) == minput(&buf.chunkMan) - old(minput(&buf.chunkMan))
+
+// ==== queue directories (C06) ========================================================================================================
+// directory name = sanitised id + "." + last 8 hex digits of MD5(the RAW id): ids that differ only in sanitised characters
+// still get different directories (up to a digest collision); the raw id is what .id holds and what recovery returns.
+//@ pure func sanit(k int) string
+//@ func sanitizeDirName(name string) string
+//@   property C06
+//@   modifies nothing
+//@   ensures[?function-of-the-content] result == sanit(key(name))
+//@   ensures[same-length-only-slash-and-nul-replaced] len(result) == len(name) && forall i int :: 0 <= i && i < len(name) ==> result[i] == ((name[i] == 0 || name[i] == 47) ? 95 : name[i])
+//@   loop 1: invariant 0 <= i && i <= len(name) && len(cur(result)) == len(name) && isfresh(cur(result)) && forall k int :: 0 <= k && k < i ==> cur(result)[k] == ((name[k] == 0 || name[k] == 47) ? 95 : name[k])
+//@   loop 1: decreases len(name) - i
+
+//@ func makeBufferQueueDir(parentLogger logger.Logger, rootPath string, bufferID string) string
+//@   property C06
+//@   requires parentLogger != nil
+//@   modifies everything
+//@   ensures[hash-of-the-raw-id] bufferID != "" ==> util.lasthashed === bufferID
+//@   ensures[id-file-holds-the-raw-id] lastwfdata == bufferID && lastwfname == pathjoin2(key(result), key(".id"))
